@@ -15,12 +15,16 @@ structure Case where
   links : List Link := []
   prog : List (Nat × Nat × Emit) := []   -- entity, kind, emit
   inits : List (Nat × Nat × Nat) := []   -- time, entity, kind
+  sends : List (Nat × Nat × Nat) := []   -- judge input: observed cross-partition emissions (src part, dst part, delay)
 
 def parseLine (c : Case) (ts : List String) : Case :=
   match ts with
   | ["ent", e, p] => { c with ents := c.ents ++ [(natD e, natD p)] }
   | ["link", s, d, l] => { c with links := c.links ++ [⟨natD s, natD d, natD l⟩] }
   | ["emit", e, k, d, t, k2] => { c with prog := c.prog ++ [(natD e, natD k, ⟨natD d, natD t, natD k2⟩)] }
+  -- the script passes the delay as float seconds (`event.time + d/1e9`): the engine adds `int((d/1e9)*1e9)` ns
+  | ["emit", e, k, d, t, k2, "s"] => { c with prog := c.prog ++ [(natD e, natD k, ⟨wEffOf (natD d), natD t, natD k2⟩)] }
+  | ["xs", a, b, d] => { c with sends := c.sends ++ [(natD a, natD b, natD d)] }
   | ["init", t, e, k] => { c with inits := c.inits ++ [(natD t, natD e, natD k)] }
   | _ => c
 
@@ -37,24 +41,46 @@ def showObs (l : List Obs) : String := joinSp (l.map fun o => s!"{o.1}:{o.2}")
 
 def optT (s : String) : Nat := if s == "inf" then infT else natD s
 
+def tripleLt (a b : Nat × Nat × Nat) : Bool :=
+  a.1 < b.1 || (a.1 == b.1 && (a.2.1 < b.2.1 || (a.2.1 == b.2.1 && a.2.2 < b.2.2)))
+
+def insertUniq (x : Nat × Nat × Nat) : List (Nat × Nat × Nat) → List (Nat × Nat × Nat)
+  | [] => [x]
+  | y :: ys => if x == y then y :: ys else if tripleLt x y then x :: y :: ys else y :: insertUniq x ys
+
+/-- the cross-partition emissions made by the deliveries of a log up to `T`: (source partition, destination
+    partition, delay), sorted, without repetitions -/
+def crossSends (partOf : Nat → Nat) (prog : List (Nat × Nat × Emit)) (T : Nat) (log : List Ev) :
+    List (Nat × Nat × Nat) :=
+  (log.filter (fun x => x.time ≤ T)).foldl (fun acc ev =>
+    (prog.filter (fun x => x.1 == ev.tgt && x.2.1 == ev.kind && partOf x.2.2.tgt != partOf ev.tgt)).foldl
+      (fun acc x => insertUniq (partOf ev.tgt, partOf x.2.2.tgt, x.2.2.delay) acc) acc) []
+
 def runModel (strict : Bool) (nparts : Nat) (window : Option Nat) (endT : Nat) (body : List String) :
     List String :=
   let cs := body.foldl (fun c l => parseLine c (toks l)) ({} : Case)
   let nEnt := cs.ents.length
   let partOf : Array Nat := (List.range nEnt).toArray.map fun e => ((cs.ents.find? (·.1 == e)).map (·.2)).getD 0
-  let cfg : Cfg := { partOf := partOf, nparts := nparts, links := cs.links }
+  -- validation compares the declared float seconds (decimal order = float order)
+  let cfgV : Cfg := { partOf := partOf, nparts := nparts, links := cs.links }
+  -- the barrier exchange validates in nanoseconds against `Duration.from_seconds(min_latency)`
+  let cfg : Cfg := { cfgV with links := cs.links.map fun l => { l with lat := wEffOf l.lat } }
   let refs := cs.prog.map fun x => (x.1, x.2.2.tgt)
-  if !cfg.valid window refs then ["err ValueError"] else
   let h := scriptHandler cs.prog
   let evs : List Ev := cs.inits.zipIdx.map fun (x, i) => ⟨x.1, i, x.2.1, x.2.2⟩
   let fuel := 200000
   -- sequential copy
   let sq := runSeq h endT fuel (Part.init 0 0 () evs)
   if !haltedB h seqRoute false endT sq then ["err Fuel"] else
-  let parts0 : List (Part Unit) := (List.range nparts).map fun i =>
-    Part.init i 0 () (evs.filter fun e => cfg.part e.tgt == i)
   let ents := List.range nEnt
   let seqLines := ents.map fun e => s!"seq {e} {showObs (canon endT sq.log e)}".trimAscii.toString
+  -- a rejected run reports the sequential logs and the cross-partition emissions of the sequential run
+  let rejected (kind : String) : List String :=
+    [s!"err {kind}"] ++ seqLines ++
+      (crossSends cfg.part cs.prog endT sq.log).map fun x => s!"xs {x.1} {x.2.1} {x.2.2}"
+  if !cfgV.valid window refs then rejected "ValueError" else
+  let parts0 : List (Part Unit) := (List.range nparts).map fun i =>
+    Part.init i 0 () (evs.filter fun e => cfg.part e.tgt == i)
   let minLat := (cs.links.map (·.lat)).foldl min ((cs.links.map (·.lat)).headD 0)
   let wEff := match window with
     | some w => wEffOf w
@@ -63,8 +89,8 @@ def runModel (strict : Bool) (nparts : Nat) (window : Option Nat) (endT : Nat) (
   let s := parallelRun h cfg strict fuel wEff endT 100000 parts0
   if cs.links.isEmpty && !s.parts.all (fun p => haltedB h seqRoute false endT p) then ["err Fuel"] else
   match s.err with
-  | some .value => ["err ValueError"]
-  | some .runtime => ["err RuntimeError"]
+  | some .value => rejected "ValueError"
+  | some .runtime => rejected "RuntimeError"
   | some .fuel => ["err Fuel"]
   | none =>
     let plog := s.parts.flatMap (·.log)
@@ -105,12 +131,29 @@ def judgeBlock (endT : Nat) (body : List String) : List String :=
   | none => ["ok"]
   | some sig => [s!"viol {sig}"]
 
+/-- `judge-err <nparts> <window|none>`: the parallel run was aborted; body = the declared configuration
+    (`ent`, `link`, `emit` lines) and the implementation's transcript (`err …`, `seq …`, `xs …`) -/
+def judgeErrBlock (nparts : Nat) (window : Option Nat) (body : List String) : List String :=
+  let cs := body.foldl (fun c l => parseLine c (toks l)) ({} : Case)
+  let partOf : Nat → Nat := fun e => ((cs.ents.find? (·.1 == e)).map (·.2)).getD 0
+  let conf : ConfObs :=
+    { nparts := nparts
+      links := cs.links.map fun l => ⟨l.src, l.dst, l.lat, wEffOf l.lat⟩
+      window := window
+      refs := cs.prog.map fun x => (partOf x.1, partOf x.2.2.tgt)
+      sends := cs.sends }
+  match judgeRejected conf with
+  | none => ["ok"]
+  | some sig => [s!"viol {sig}"]
+
 def handle (hdr : List String) (body : List String) : List String :=
   match hdr with
   | ["run", variant, nparts, window, endT] =>
     runModel (variant != "current") (natD nparts) (if window == "none" then none else some (natD window))
       (optT endT) body
   | ["judge", endT] => judgeBlock (optT endT) body
+  | ["judge-err", nparts, window] =>
+    judgeErrBlock (natD nparts) (if window == "none" then none else some (natD window)) body
   | _ => ["bad-mode"]
 
 end HappyModel.C05.Driver
